@@ -266,7 +266,7 @@ impl Runner {
         // copy the command's input fields (everything that is not an observation)
         for (k, v) in cmd.as_object().unwrap_or_else(|| bad("command not an object")) {
             match k.as_str() {
-                "i" | "pre" | "post" | "res" | "dec" | "buf" | "rbuf" | "probe" | "tail_diff" | "rtail_diff" | "fields"
+                "i" | "pre" | "post" | "res" | "dec" | "buf" | "rbuf" | "probe" | "rprobe" | "tail_diff" | "rtail_diff" | "fields"
                 | "raw_after" | "variant" | "results" | "ok" | "raw_out" | "wide"
                 | "variant_value" | "calls" => {}
                 _ => {
@@ -599,6 +599,10 @@ impl Runner {
             Some(k) if k >= 0 => (k as usize).min(rbuf.len()),
             _ => 0,
         };
+        if n >= 3 {
+            // the length probe on every prefix of the response the processor wrote
+            ev.insert("rprobe".into(), probe_prefixes(ctx, &rbuf[..n]));
+        }
         ev.insert("res".into(), res);
         ev.insert("rbuf".into(), jb(&rbuf[..n]));
         ev.insert("rtail_diff".into(), tail_diff(&rbuf, n, poison));
